@@ -1,4 +1,570 @@
 import BarterModel.Model.Metrics
 import BarterModel.Lemmas.DataSet
+import BarterModel.Lemmas.TearSheet
+import BarterModel.Props.C18
+import BarterModel.Props.C16
+/-!
+Helper lemmas for the sub-check C16M (`Props/C16M.lean`): `Rat.abs` arithmetic, the saturating
+product of `scale` (`scaleVal`), the interval algebra (`periods`, whole seconds, truncation
+bounds), `calculate` against the extended-value spec, and the state of the tear-sheet generator
+after a history (reusing the C17 refinement `run_eq_specSummary` and the C18 theorems).
+-/
 namespace BarterModel.Metrics
+open BarterModel
+
+theorem decimalMax_pos : (0 : Rat) < decimalMax := by decide
+theorem decimalMin_eq : decimalMin = -decimalMax := rfl
+
+theorem abs_nonneg' (a : Rat) : 0 ≤ a.abs := Rat.abs_nonneg
+theorem abs_le_iff (a b : Rat) : a.abs ≤ b ↔ -b ≤ a ∧ a ≤ b := by
+  unfold Rat.abs; split <;> grind
+theorem abs_eq_zero_iff (a : Rat) : a.abs = 0 ↔ a = 0 := by
+  unfold Rat.abs; split <;> grind
+
+theorem abs_mul' (a b : Rat) : (a * b).abs = a.abs * b.abs := by
+  rcases (Rat.le_total (a := 0) (b := a)) with ha | ha <;> rcases (Rat.le_total (a := 0) (b := b)) with hb | hb
+  · rw [Rat.abs_of_nonneg ha, Rat.abs_of_nonneg hb, Rat.abs_of_nonneg (Rat.mul_nonneg ha hb)]
+  · have h1 : 0 ≤ -b := by grind
+    have : 0 ≤ a * -b := Rat.mul_nonneg ha h1
+    have e : a * b = -(a * -b) := by grind
+    rw [e, Rat.abs_neg, Rat.abs_of_nonneg this, Rat.abs_of_nonneg ha,
+      ← Rat.abs_neg (x := b), Rat.abs_of_nonneg h1]
+  · have h1 : 0 ≤ -a := by grind
+    have : 0 ≤ -a * b := Rat.mul_nonneg h1 hb
+    have e : a * b = -(-a * b) := by grind
+    rw [e, Rat.abs_neg, Rat.abs_of_nonneg this, Rat.abs_of_nonneg hb,
+      ← Rat.abs_neg (x := a), Rat.abs_of_nonneg h1]
+  · have h1 : 0 ≤ -a := by grind
+    have h2 : 0 ≤ -b := by grind
+    have : 0 ≤ -a * -b := Rat.mul_nonneg h1 h2
+    have e : a * b = (-a * -b) := by grind
+    rw [e, Rat.abs_of_nonneg this, ← Rat.abs_neg (x := a), Rat.abs_of_nonneg h1,
+      ← Rat.abs_neg (x := b), Rat.abs_of_nonneg h2]
+
+theorem div_nonneg {a b : Rat} (ha : 0 ≤ a) (hb : 0 ≤ b) : 0 ≤ a / b := by
+  rcases Rat.le_iff_lt_or_eq.mp hb with h | h
+  · exact DataSet.div_nonneg_of_pos ha h
+  · rw [← h, Rat.div_def, Rat.inv_zero, Rat.mul_zero]; exact Rat.le_refl
+
+/-- `periods` is a genuine quotient as soon as the current interval has at least one second. -/
+theorem periods_eq_div {c t : Interval} (hc : c.secs ≠ 0) :
+    periods c t = t.secs.abs / c.secs.abs := by
+  have : c.secs.abs ≠ 0 := fun h => hc ((abs_eq_zero_iff _).mp h)
+  simp [periods, checkedDiv, this]
+
+theorem periods_zero_current {c t : Interval} (hc : c.secs = 0) : periods c t = decimalMax := by
+  simp [periods, checkedDiv, hc, Rat.abs_zero]
+
+theorem periods_nonneg (c t : Interval) : 0 ≤ periods c t := by
+  by_cases hc : c.secs = 0
+  · rw [periods_zero_current hc]; decide
+  · rw [periods_eq_div hc]; exact div_nonneg Rat.abs_nonneg Rat.abs_nonneg
+
+
+/-! ### the saturating product of `scale` -/
+
+/-- `value.checked_mul(scale).unwrap_or(Decimal::MAX)` -/
+def scaleVal (v s : Rat) : Rat := (checkedMul v s).getD decimalMax
+
+theorem scaleWith_value (law : Rat → Rat) (m : Metric) (t : Interval) :
+    (m.scaleWith law t).value = scaleVal m.value (law (periods m.interval t)) := rfl
+
+theorem scaleWith_interval (law : Rat → Rat) (m : Metric) (t : Interval) :
+    (m.scaleWith law t).interval = t := rfl
+
+theorem scaleVal_eq {v s : Rat} (h : (v * s).abs ≤ decimalMax) : scaleVal v s = v * s := by
+  have : ¬ decimalMax < (v * s).abs := by grind
+  simp [scaleVal, checkedMul, this]
+
+theorem scaleVal_sat {v s : Rat} (h : decimalMax < (v * s).abs) : scaleVal v s = decimalMax := by
+  simp [scaleVal, checkedMul, h]
+
+theorem scaleVal_cases (v s : Rat) :
+    ((v * s).abs ≤ decimalMax ∧ scaleVal v s = v * s) ∨
+    (decimalMax < (v * s).abs ∧ scaleVal v s = decimalMax) := by
+  by_cases h : decimalMax < (v * s).abs
+  · exact Or.inr ⟨h, scaleVal_sat h⟩
+  · have h' : (v * s).abs ≤ decimalMax := by grind
+    exact Or.inl ⟨h', scaleVal_eq h'⟩
+
+theorem scaleVal_bounds (v s : Rat) : decimalMin ≤ scaleVal v s ∧ scaleVal v s ≤ decimalMax := by
+  rcases scaleVal_cases v s with ⟨h, e⟩ | ⟨_, e⟩
+  · rw [e]; exact (abs_le_iff _ _).mp h
+  · rw [e]; decide
+
+theorem scaleVal_one {v : Rat} (h : v.abs ≤ decimalMax) : scaleVal v 1 = v := by
+  have : (v * 1).abs ≤ decimalMax := by rw [Rat.mul_one]; exact h
+  rw [scaleVal_eq this, Rat.mul_one]
+
+theorem scaleVal_zero (v : Rat) : scaleVal v 0 = 0 := by
+  have : (v * 0).abs ≤ decimalMax := by rw [Rat.mul_zero]; decide
+  rw [scaleVal_eq this, Rat.mul_zero]
+
+theorem scaleVal_assoc {v s1 : Rat} (s2 : Rat) (h1 : (v * s1).abs ≤ decimalMax) :
+    scaleVal (scaleVal v s1) s2 = scaleVal v (s1 * s2) := by
+  rw [scaleVal_eq h1]
+  unfold scaleVal checkedMul
+  rw [Rat.mul_assoc]
+
+theorem scaleVal_nonneg {v s : Rat} (hv : 0 ≤ v) (hs : 0 ≤ s) : 0 ≤ scaleVal v s := by
+  rcases scaleVal_cases v s with ⟨_, e⟩ | ⟨_, e⟩
+  · rw [e]; exact Rat.mul_nonneg hv hs
+  · rw [e]; decide
+
+theorem scaleVal_nonpos {v s : Rat} (hv : v ≤ 0) (hs : 0 ≤ s) (hlo : decimalMin ≤ v * s) :
+    scaleVal v s ≤ 0 := by
+  have hn : v * s ≤ 0 := by
+    have : 0 ≤ -v * s := Rat.mul_nonneg (by grind) hs
+    grind
+  have : (v * s).abs ≤ decimalMax := (abs_le_iff _ _).mpr ⟨hlo, by
+    have : (0 : Rat) ≤ decimalMax := by decide
+    grind⟩
+  rw [scaleVal_eq this]; exact hn
+
+theorem scaleVal_mono {v1 v2 s : Rat} (hs : 0 ≤ s) (h : v1 ≤ v2) (hlo : decimalMin ≤ v1 * s) :
+    scaleVal v1 s ≤ scaleVal v2 s := by
+  have hle : v1 * s ≤ v2 * s := Rat.mul_le_mul_of_nonneg_right h hs
+  rcases scaleVal_cases v2 s with ⟨h2, e2⟩ | ⟨_, e2⟩
+  · have h2' := (abs_le_iff _ _).mp h2
+    have : (v1 * s).abs ≤ decimalMax := (abs_le_iff _ _).mpr ⟨hlo, by grind⟩
+    rw [e2, scaleVal_eq this]; exact hle
+  · rw [e2]; exact (scaleVal_bounds v1 s).2
+
+theorem scaleVal_min_of_one_lt {s : Rat} (hs : 1 < s) : scaleVal decimalMin s = decimalMax := by
+  apply scaleVal_sat
+  have h0 : (0 : Rat) ≤ s := by grind
+  rw [abs_mul', Rat.abs_of_nonneg h0, show decimalMin.abs = decimalMax by decide]
+  have := Rat.mul_lt_mul_of_pos_left hs decimalMax_pos
+  rwa [Rat.mul_one] at this
+
+theorem scaleVal_max_of_one_lt {s : Rat} (hs : 1 < s) : scaleVal decimalMax s = decimalMax := by
+  apply scaleVal_sat
+  have h0 : (0 : Rat) ≤ s := by grind
+  rw [abs_mul', Rat.abs_of_nonneg h0, show decimalMax.abs = decimalMax by decide]
+  have := Rat.mul_lt_mul_of_pos_left hs decimalMax_pos
+  rwa [Rat.mul_one] at this
+
+theorem scaleVal_sentinel_of_le_one {v s : Rat} (hv : v.abs = decimalMax) (h0 : 0 ≤ s) (hs : s ≤ 1) :
+    scaleVal v s = v * s := by
+  apply scaleVal_eq
+  rw [abs_mul', Rat.abs_of_nonneg h0, hv]
+  have := Rat.mul_le_mul_of_nonneg_left hs (show (0 : Rat) ≤ decimalMax by decide)
+  rwa [Rat.mul_one] at this
+
+
+/-! ### interval algebra -/
+
+theorem periods_self {a : Interval} (ha : a.secs ≠ 0) : periods a a = 1 := by
+  have : a.secs.abs ≠ 0 := fun h => ha ((abs_eq_zero_iff _).mp h)
+  rw [periods_eq_div ha]; grind
+
+theorem periods_mul {a b : Interval} (c : Interval) (ha : a.secs ≠ 0) (hb : b.secs ≠ 0) :
+    periods a b * periods b c = periods a c := by
+  have h1 : a.secs.abs ≠ 0 := fun h => ha ((abs_eq_zero_iff _).mp h)
+  have h2 : b.secs.abs ≠ 0 := fun h => hb ((abs_eq_zero_iff _).mp h)
+  rw [periods_eq_div ha, periods_eq_div hb, periods_eq_div ha]; grind
+
+theorem periods_inv {a b : Interval} (ha : a.secs ≠ 0) (hb : b.secs ≠ 0) :
+    periods a b * periods b a = 1 := by
+  rw [periods_mul a ha hb, periods_self ha]
+
+theorem numSeconds_whole (k : Int) : numSeconds (1000 * k) = k := by
+  unfold numSeconds; exact Int.mul_tdiv_cancel_left k (by decide)
+
+theorem intCast_abs (k : Int) : ((k : Int) : Rat).abs = ((k.natAbs : Int) : Rat) := by
+  rcases Int.le_total 0 k with h | h
+  · have : (0 : Rat) ≤ (k : Rat) := by
+      have := (Rat.intCast_le_intCast (a := 0) (b := k)).mpr h; simpa using this
+    rw [Rat.abs_of_nonneg this]; congr 1; omega
+  · have : (0 : Rat) ≤ -(k : Rat) := by
+      have := (Rat.intCast_le_intCast (a := k) (b := 0)).mpr h
+      have h0 : ((0 : Int) : Rat) = 0 := rfl
+      grind
+    rw [← Rat.abs_neg, Rat.abs_of_nonneg this, ← Rat.intCast_neg]; congr 1; omega
+
+theorem natAbs_tdiv_1000 (ms : Int) : ((Int.tdiv ms 1000).natAbs : Int) = (ms.natAbs : Int) / 1000 := by
+  rcases Int.le_total 0 ms with h | h
+  · rw [Int.tdiv_eq_ediv_of_nonneg h]; omega
+  · obtain ⟨n, rfl⟩ : ∃ n : Int, ms = -n := ⟨-ms, by omega⟩
+    rw [Int.neg_tdiv, Int.tdiv_eq_ediv_of_nonneg (by omega)]; omega
+
+/-- `|num_seconds|` is the whole-second part of the length: `⌊|ms| / 1000⌋`. -/
+theorem secs_abs_eq (i : Interval) : i.secs.abs = (((i.interval.natAbs : Int) / 1000 : Int) : Rat) := by
+  unfold Interval.secs numSeconds
+  rw [intCast_abs, natAbs_tdiv_1000]
+
+theorem length_eq (i : Interval) : i.length = ((i.interval.natAbs : Int) : Rat) / 1000 := by
+  unfold Interval.length
+  simp only
+  congr 1
+  have := intCast_abs i.interval
+  unfold Rat.abs at this
+  split
+  · rename_i h
+    have h' : ¬ (0 : Rat) ≤ (i.interval : Rat) := by grind
+    rw [if_neg h'] at this; exact this
+  · rename_i h
+    have h' : (0 : Rat) ≤ (i.interval : Rat) := by grind
+    rw [if_pos h'] at this; exact this
+
+/-- The code sees the whole seconds of an interval: `|secs| ≤ length < |secs| + 1`. -/
+theorem secs_abs_le_length (i : Interval) : i.secs.abs ≤ i.length ∧ i.length < i.secs.abs + 1 := by
+  rw [secs_abs_eq, length_eq]
+  generalize (i.interval.natAbs : Int) = n
+  have h1 : n / 1000 * 1000 ≤ n := by omega
+  have h2 : n < (n / 1000 + 1) * 1000 := by omega
+  have h1' := (Rat.intCast_le_intCast).mpr h1
+  have h2' := (Rat.intCast_lt_intCast).mpr h2
+  rw [Rat.intCast_mul] at h1' h2'
+  rw [Rat.intCast_add] at h2'
+  have e1000 : ((1000 : Int) : Rat) = 1000 := rfl
+  have e1 : ((1 : Int) : Rat) = 1 := rfl
+  rw [e1000] at h1' h2'
+  rw [e1] at h2'
+  constructor
+  · grind
+  · grind
+
+/-- An interval that is a whole number of seconds is seen exactly. -/
+theorem secs_abs_eq_length_of_whole {i : Interval} (h : i.interval % 1000 = 0) :
+    i.secs.abs = i.length := by
+  rw [secs_abs_eq, length_eq]
+  have hn : (i.interval.natAbs : Int) % 1000 = 0 := by omega
+  generalize (i.interval.natAbs : Int) = n at hn
+  have : n = n / 1000 * 1000 := by omega
+  have e1000 : ((1000 : Int) : Rat) = 1000 := rfl
+  have h' := congrArg (fun z : Int => (z : Rat)) this
+  simp only [Rat.intCast_mul, e1000] at h'
+  rw [h']
+  grind
+
+
+theorem div_le_iff' {a b c : Rat} (hb : 0 < b) : a / b ≤ c ↔ a ≤ c * b := by
+  rw [← Rat.not_lt, Rat.lt_div_iff hb, Rat.not_lt]
+
+theorem le_div_iff' {a b c : Rat} (hc : 0 < c) : a ≤ b / c ↔ a * c ≤ b := by
+  rw [← Rat.not_lt, Rat.div_lt_iff hc, Rat.not_lt]
+
+theorem length_nonneg (i : Interval) : 0 ≤ i.length :=
+  Rat.le_trans Rat.abs_nonneg (secs_abs_le_length i).1
+
+theorem length_ne_zero_of_secs {i : Interval} (h : i.secs ≠ 0) : i.length ≠ 0 := by
+  have h1 : i.secs.abs ≠ 0 := fun e => h ((abs_eq_zero_iff _).mp e)
+  have h2 : 0 ≤ i.secs.abs := Rat.abs_nonneg
+  have := (secs_abs_le_length i).1
+  grind
+
+/-- On whole-second intervals the factor the code computes is the documented one. -/
+theorem specPeriods_eq_of_whole {c t : Interval} (hc : c.interval % 1000 = 0)
+    (ht : t.interval % 1000 = 0) (h0 : c.secs ≠ 0) : specPeriods c t = some (periods c t) := by
+  have hl := length_ne_zero_of_secs h0
+  simp only [specPeriods, hl, if_false]
+  rw [periods_eq_div h0, secs_abs_eq_length_of_whole hc, secs_abs_eq_length_of_whole ht]
+
+/-- In general the code truncates both lengths to whole seconds; the documented factor `n` then lies
+within `|T|/(|S|+1) ≤ n < (|T|+1)/|S|` of what the code uses (`|T|/|S|`). -/
+theorem specPeriods_bounds {c t : Interval} (h0 : c.secs ≠ 0) :
+    ∃ n, specPeriods c t = some n ∧
+      t.secs.abs / (c.secs.abs + 1) ≤ n ∧ n < (t.secs.abs + 1) / c.secs.abs := by
+  have hl := length_ne_zero_of_secs h0
+  refine ⟨t.length / c.length, by simp [specPeriods, hl], ?_, ?_⟩
+  all_goals
+    have hS0 : 0 ≤ c.secs.abs := Rat.abs_nonneg
+    have hS : 0 < c.secs.abs := by
+      have : c.secs.abs ≠ 0 := fun e => h0 ((abs_eq_zero_iff _).mp e)
+      grind
+    have hT0 : 0 ≤ t.secs.abs := Rat.abs_nonneg
+    obtain ⟨c1, c2⟩ := secs_abs_le_length c
+    obtain ⟨t1, t2⟩ := secs_abs_le_length t
+    have hLc : 0 < c.length := by grind
+    have hLt : 0 ≤ t.length := length_nonneg t
+    have hn : 0 ≤ t.length / c.length := div_nonneg hLt (by grind)
+    have hmul : t.length / c.length * c.length = t.length := Rat.div_mul_cancel hl
+  · rw [div_le_iff' (by grind)]
+    have : t.length / c.length * c.length ≤ t.length / c.length * (c.secs.abs + 1) :=
+      Rat.mul_le_mul_of_nonneg_left (by grind) hn
+    grind
+  · rw [Rat.lt_div_iff hS]
+    have : t.length / c.length * c.secs.abs ≤ t.length / c.length * c.length :=
+      Rat.mul_le_mul_of_nonneg_left c1 hn
+    grind
+
+
+theorem scaleVal_mono_factor {v s1 s2 : Rat} (hv : 0 ≤ v) (h0 : 0 ≤ s1) (h : s1 ≤ s2) :
+    scaleVal v s1 ≤ scaleVal v s2 := by
+  have hle : v * s1 ≤ v * s2 := Rat.mul_le_mul_of_nonneg_left h hv
+  have hn1 : 0 ≤ v * s1 := Rat.mul_nonneg hv h0
+  rcases scaleVal_cases v s2 with ⟨h2, e2⟩ | ⟨_, e2⟩
+  · have h2' := (abs_le_iff _ _).mp h2
+    have hmax : (0 : Rat) ≤ decimalMax := by decide
+    have : (v * s1).abs ≤ decimalMax := (abs_le_iff _ _).mpr ⟨by grind, by grind⟩
+    rw [e2, scaleVal_eq this]; exact hle
+  · rw [e2]; exact (scaleVal_bounds v s1).2
+
+theorem periods_mono_target {c t1 t2 : Interval} (h : t1.secs.abs ≤ t2.secs.abs) :
+    periods c t1 ≤ periods c t2 := by
+  by_cases hc : c.secs = 0
+  · rw [periods_zero_current hc, periods_zero_current hc]; exact Rat.le_refl
+  · have hpos : 0 < c.secs.abs := by
+      have : c.secs.abs ≠ 0 := fun e => hc ((abs_eq_zero_iff _).mp e)
+      have := abs_nonneg' c.secs
+      grind
+    rw [periods_eq_div hc, periods_eq_div hc, div_le_iff' hpos, Rat.div_mul_cancel (by grind)]
+    exact h
+
+/-! ### calculate -/
+
+theorem sharpe_value (rf m s : Rat) (p : Interval) :
+    (SharpeRatio.calculate rf m s p).value = (specSharpe rf m s).toDecimal := by
+  unfold SharpeRatio.calculate specSharpe; split <;> rfl
+
+theorem sortino_value (rf m s : Rat) (p : Interval) :
+    (SortinoRatio.calculate rf m s p).value = (specSortino rf m s).toDecimal := by
+  unfold SortinoRatio.calculate specSortino specRatio
+  by_cases hs : s = 0
+  · simp only [hs, if_true]
+    by_cases h1 : rf < m
+    · have : 0 < m - rf := by grind
+      simp [h1, this, Ext.toDecimal]
+    · by_cases h2 : m < rf
+      · have a : ¬ 0 < m - rf := by grind
+        have b : m - rf < 0 := by grind
+        simp [h1, h2, a, b, Ext.toDecimal]
+      · have a : ¬ 0 < m - rf := by grind
+        have b : ¬ m - rf < 0 := by grind
+        simp [h1, h2, a, b, Ext.toDecimal]
+  · simp [hs, Ext.toDecimal]
+
+theorem abs_eq_ite (d : Rat) : d.abs = if d < 0 then -d else d := by
+  unfold Rat.abs; split <;> split <;> grind
+
+theorem calmar_eq_sortino (rf m d : Rat) (p : Interval) :
+    CalmarRatio.calculate rf m d p = SortinoRatio.calculate rf m d.abs p := by
+  unfold CalmarRatio.calculate SortinoRatio.calculate
+  by_cases hd : d = 0
+  · simp [hd, Rat.abs_zero]
+  · have : d.abs ≠ 0 := fun e => hd ((abs_eq_zero_iff _).mp e)
+    simp [hd, this]
+
+theorem calmar_value (rf m d : Rat) (p : Interval) :
+    (CalmarRatio.calculate rf m d p).value = (specCalmar rf m d).toDecimal := by
+  rw [calmar_eq_sortino, sortino_value, specCalmar, specSortino, abs_eq_ite]
+
+
+/-! ### the tear-sheet generator over a history -/
+
+theorem updateFromPosition_ret (f : Rat → Rat) (g : Gen) (p : Exit) :
+    (g.updateFromPosition f p).total = g.total.update f (retOf p) ∧
+    (g.updateFromPosition f p).losses =
+      (if retOf p < 0 then g.losses.update f (retOf p) else g.losses) := ⟨rfl, rfl⟩
+
+/-- State of the generator after any history, from any start state. -/
+theorem run_state (f : Rat → Rat) (ps : List Exit) : ∀ g : Gen,
+    (Gen.run f g ps).timeEngineStart = g.timeEngineStart ∧
+    (Gen.run f g ps).timeEngineNow = ((ps.getLast?).map (·.timeExit)).getD g.timeEngineNow ∧
+    (Gen.run f g ps).total = (returns ps).foldl (DataSet.Summary.update f) g.total ∧
+    (Gen.run f g ps).losses = (lossReturns ps).foldl (DataSet.Summary.update f) g.losses ∧
+    (Gen.run f g ps).pnlRaw =
+      g.pnlRaw + TearSheet.specPnl (ps.map (·.closed)) ∧
+    (Gen.run f g ps).sheet =
+      (Drawdown.Sheet.run g.sheet
+        (Drawdown.pnlCurve g.pnlRaw (ps.map fun p => (p.timeExit, p.closed.pnlRealised)))).1 := by
+  induction ps with
+  | nil =>
+    intro g
+    simp [Gen.run, returns, lossReturns, TearSheet.specPnl, TearSheet.sumRat, Drawdown.pnlCurve,
+      Drawdown.Sheet.run, Rat.add_zero]
+  | cons p ps ih =>
+    intro g
+    have h := ih (g.updateFromPosition f p)
+    simp only [Gen.run, List.foldl_cons] at h ⊢
+    obtain ⟨h1, h2, h3, h4, h5, h6⟩ := h
+    refine ⟨h1, ?_, ?_, ?_, ?_, ?_⟩
+    · rw [h2, List.getLast?_cons]
+      cases ps.getLast? <;> simp [Gen.updateFromPosition]
+    · rw [h3]; simp [returns, (updateFromPosition_ret f g p).1]
+    · rw [h4]
+      simp only [lossReturns, returns, List.map_cons, List.filter_cons]
+      by_cases hr : retOf p < 0
+      · simp [hr, (updateFromPosition_ret f g p).2]
+      · simp [hr, (updateFromPosition_ret f g p).2]
+    · rw [h5]
+      simp only [Gen.updateFromPosition, TearSheet.specPnl, TearSheet.sumRat, List.map_cons,
+        List.foldr_cons, List.map_map]
+      grind
+    · rw [h6]
+      simp [Gen.updateFromPosition, Drawdown.pnlCurve, Drawdown.Sheet.run]
+
+/-- A fresh generator after any history: the clock, the two whole-dataset summaries (C17), the
+PnL and the drawdown generators over the cumulative PnL curve (C18). -/
+theorem run_init (f : Rat → Rat) (t0 : Int) (ps : List Exit) :
+    let g := Gen.run f (Gen.init t0) ps
+    g.timeEngineStart = t0 ∧
+    g.tradingPeriod = specTradingPeriod t0 ps ∧
+    g.total = DataSet.specSummary f (returns ps) ∧
+    g.losses = DataSet.specSummary f (lossReturns ps) ∧
+    g.pnlRaw = TearSheet.specPnl (ps.map (·.closed)) ∧
+    g.sheet = (Drawdown.Sheet.run Drawdown.Sheet.default (specCurve ps)).1 := by
+  obtain ⟨h1, h2, h3, h4, h5, h6⟩ := run_state f ps (Gen.init t0)
+  refine ⟨h1, ?_, ?_, ?_, ?_, ?_⟩
+  · unfold Gen.tradingPeriod specTradingPeriod
+    rw [h1, h2]
+    simp only [Gen.init]
+    congr 1
+    cases ps.getLast? <;> simp <;> omega
+  · rw [h3, ← DataSet.run_eq_specSummary]; rfl
+  · rw [h4, ← DataSet.run_eq_specSummary]; rfl
+  · rw [h5]; simp [Gen.init, Rat.zero_add]
+  · rw [h6]; rfl
+
+
+theorem specSummary_stdDev (f : Rat → Rat) (xs : List Rat) :
+    (DataSet.specSummary f xs).dispersion.stdDev = specStdDev f xs := rfl
+
+theorem specSummary_mean (f : Rat → Rat) (xs : List Rat) :
+    (DataSet.specSummary f xs).mean = DataSet.specMean xs := rfl
+
+/-- `generate` leaves everything the four metrics read untouched (only the mean/max drawdown
+generators change). -/
+theorem generate_state (f : Rat → Rat) (g : Gen) (rf : Rat) (iv : Interval) :
+    (g.generate f rf iv).1.timeEngineStart = g.timeEngineStart ∧
+    (g.generate f rf iv).1.timeEngineNow = g.timeEngineNow ∧
+    (g.generate f rf iv).1.pnlRaw = g.pnlRaw ∧
+    (g.generate f rf iv).1.total = g.total ∧
+    (g.generate f rf iv).1.losses = g.losses := ⟨rfl, rfl, rfl, rfl, rfl⟩
+
+/-- The sheet `generate` produces, field by field, in terms of the generator's state. -/
+theorem generate_fields (f : Rat → Rat) (g : Gen) (rf : Rat) (iv : Interval) :
+    let sh := (g.generate f rf iv).2
+    sh.pnl = g.pnlRaw ∧
+    sh.pnlReturn = RateOfReturn.scale (RateOfReturn.calculate g.total.mean g.tradingPeriod) iv ∧
+    sh.sharpeRatio = SharpeRatio.scale f
+      (SharpeRatio.calculate rf g.total.mean g.total.dispersion.stdDev g.tradingPeriod) iv ∧
+    sh.sortinoRatio = SortinoRatio.scale f
+      (SortinoRatio.calculate rf g.total.mean g.losses.dispersion.stdDev g.tradingPeriod) iv ∧
+    sh.calmarRatio = CalmarRatio.scale f
+      (CalmarRatio.calculate rf g.total.mean ((g.sheet.generate.2.max.map (·.value)).getD 0)
+        g.tradingPeriod) iv ∧
+    sh.drawdowns = g.sheet.generate.2 :=
+  ⟨rfl, rfl, rfl, rfl, rfl, rfl⟩
+
+/-! ### win rate / profit factor of the full generator are C16's -/
+
+theorem total_eq_sumRat (xs : List Rat) : DataSet.total xs = TearSheet.sumRat xs := by
+  induction xs with
+  | nil => rfl
+  | cons x xs ih => simp [DataSet.total, TearSheet.sumRat, ih]
+
+theorem returns_eq (ps : List Exit) : returns ps = (ps.map (·.closed)).map TearSheet.ret := by
+  simp [returns, retOf, List.map_map, Function.comp_def]
+
+theorem lossReturns_eq (ps : List Exit) :
+    lossReturns ps = (TearSheet.losers (ps.map (·.closed))).map TearSheet.ret := by
+  rw [lossReturns, returns_eq, TearSheet.losers, List.filter_map]
+  rfl
+
+/-- The four accumulator numbers `WinRate` / `ProfitFactor` are computed from coincide with those of
+the C16 model (which keeps only `count` and `sum`). -/
+theorem counts_sums_eq_c16 (f : Rat → Rat) (t0 : Int) (ps : List Exit) :
+    let g := Gen.run f (Gen.init t0) ps
+    let r := (TearSheet.TearSheetGenerator.init.run (ps.map (·.closed))).pnlReturns
+    g.total.count = r.total.count ∧ g.total.sum = r.total.sum ∧
+    g.losses.count = r.losses.count ∧ g.losses.sum = r.losses.sum := by
+  obtain ⟨_, _, h3, h4, _, _⟩ := run_init f t0 ps
+  have h := TearSheet.PnLReturns.run_eq TearSheet.PnLReturns.default (ps.map (·.closed))
+  simp only [TearSheet.TearSheetGenerator.run_pnlReturns, TearSheet.TearSheetGenerator.init]
+  obtain ⟨_, c1, c2, c3, c4⟩ := h
+  rw [h3, h4, c1, c2, c3, c4]
+  simp only [DataSet.specSummary, TearSheet.PnLReturns.default, TearSheet.DataSetSummary.default,
+    total_eq_sumRat, Rat.zero_add]
+  refine ⟨?_, ?_, ?_, ?_⟩
+  · simp [returns]
+  · rw [returns_eq]
+  · rw [lossReturns_eq]; simp
+  · rw [lossReturns_eq]
+
+
+/-! ### interleaved `generate` calls -/
+
+/-- One call on a tear-sheet generator. -/
+inductive Step where
+  | pos (p : Exit)
+  | gen (rf : Rat) (iv : Interval)
+
+def Gen.step (f : Rat → Rat) (g : Gen) : Step → Gen
+  | .pos p => g.updateFromPosition f p
+  | .gen rf iv => (g.generate f rf iv).1
+
+def Gen.exec (f : Rat → Rat) (g : Gen) (steps : List Step) : Gen := steps.foldl (Gen.step f) g
+
+def positionsOf (steps : List Step) : List Exit :=
+  steps.filterMap fun | .pos p => some p | .gen _ _ => none
+
+/-- Everything of the generator except the drawdown generators. -/
+structure Core where
+  timeEngineStart : Int
+  timeEngineNow : Int
+  pnlRaw : Rat
+  total : DataSet.Summary
+  losses : DataSet.Summary
+
+def Gen.core (g : Gen) : Core := ⟨g.timeEngineStart, g.timeEngineNow, g.pnlRaw, g.total, g.losses⟩
+
+theorem core_generate (f : Rat → Rat) (g : Gen) (rf : Rat) (iv : Interval) :
+    (g.generate f rf iv).1.core = g.core := rfl
+
+theorem core_update (f : Rat → Rat) (g g' : Gen) (p : Exit) (h : g.core = g'.core) :
+    (g.updateFromPosition f p).core = (g'.updateFromPosition f p).core := by
+  simp only [Gen.core, Core.mk.injEq] at h
+  obtain ⟨h1, h2, h3, h4, h5⟩ := h
+  simp [Gen.core, Gen.updateFromPosition, h1, h3, h4, h5]
+
+/-- `generate` calls in between do not influence clock, PnL and the two return summaries. -/
+theorem core_exec (f : Rat → Rat) (steps : List Step) : ∀ g g' : Gen, g.core = g'.core →
+    (Gen.exec f g steps).core = (Gen.run f g' (positionsOf steps)).core := by
+  induction steps with
+  | nil => intro g g' h; exact h
+  | cons s steps ih =>
+    intro g g' h
+    cases s with
+    | pos p =>
+      simp only [Gen.exec, Gen.run, positionsOf, List.foldl_cons, List.filterMap_cons]
+      exact ih _ _ (core_update f g g' p h)
+    | gen rf iv =>
+      simp only [Gen.exec, Gen.run, positionsOf, List.foldl_cons, List.filterMap_cons]
+      exact ih _ _ (by rw [Gen.step, core_generate]; exact h)
+
+/-- The four fields of a sheet that do not read the drawdown generators are functions of the core. -/
+theorem generate_of_core (f : Rat → Rat) (g g' : Gen) (h : g.core = g'.core) (rf : Rat) (iv : Interval) :
+    (g.generate f rf iv).2.pnl = (g'.generate f rf iv).2.pnl ∧
+    (g.generate f rf iv).2.pnlReturn = (g'.generate f rf iv).2.pnlReturn ∧
+    (g.generate f rf iv).2.sharpeRatio = (g'.generate f rf iv).2.sharpeRatio ∧
+    (g.generate f rf iv).2.sortinoRatio = (g'.generate f rf iv).2.sortinoRatio ∧
+    (g.generate f rf iv).2.winRate = (g'.generate f rf iv).2.winRate ∧
+    (g.generate f rf iv).2.profitFactor = (g'.generate f rf iv).2.profitFactor := by
+  simp only [Gen.core, Core.mk.injEq] at h
+  obtain ⟨h1, h2, h3, h4, h5⟩ := h
+  simp [Gen.generate, Gen.tradingPeriod, h1, h2, h3, h4, h5]
+
+/-! ### the trading period has at least one second -/
+
+theorem clamp_secs (d : Int) :
+    ∃ k : Int, 1 ≤ k ∧ ((Int.tdiv (if d < 1000 then 1000 else d) 1000 : Int) : Rat) = (k : Rat) := by
+  refine ⟨_, ?_, rfl⟩
+  split
+  · decide
+  · rw [Int.tdiv_eq_ediv_of_nonneg (by omega)]; omega
+
+theorem tradingPeriod_secs (t0 : Int) (ps : List Exit) :
+    ∃ k : Int, 1 ≤ k ∧ (specTradingPeriod t0 ps).secs = (k : Rat) := by
+  simp only [specTradingPeriod, Interval.secs, Interval.interval, numSeconds]
+  exact clamp_secs _
+
+theorem tradingPeriod_secs_ne_zero (t0 : Int) (ps : List Exit) : (specTradingPeriod t0 ps).secs ≠ 0 := by
+  obtain ⟨k, hk, e⟩ := tradingPeriod_secs t0 ps
+  rw [e]
+  intro h
+  have := Rat.intCast_eq_zero_iff.mp h
+  omega
+
 end BarterModel.Metrics
